@@ -193,3 +193,29 @@ Example va_tail_nontrivial :
   wf_args (named ++ tail) = true
   /\ length (concat (fst (va_read_seq true true (gen_va_start named) tail))) = 23%nat.
 Proof. split; reflexivity. Qed.
+
+(* ---------------------------------------------------------------- end to end on the callee side *)
+Lemma assign_app_fst named tail :
+  fst (assign (named ++ tail)) = fst (assign named) ++ skipn (length named) (fst (assign (named ++ tail))).
+Proof.
+  unfold assign. rewrite assign_from_app. simpl.
+  pose proof (assign_from_length named astate0) as L.
+  set (l1 := fst (assign_from astate0 named)) in *.
+  rewrite <- L. rewrite skipn_app_length. reflexivity.
+Qed.
+
+(* a generated MIR function that takes its fixed parameters where the incoming-argument loop says and
+   its variadic tail with va_arg/va_block_arg after va_start reads back exactly the words a psABI
+   caller placed *)
+Lemma callee_roundtrip named tail vals : wf_args (named ++ tail) = true ->
+  same_shape (fst (assign (named ++ tail))) vals ->
+  read_args (fst (in_assign named) ++ fst (va_read_seq true true (gen_va_start named) tail))
+            (image (fst (assign (named ++ tail))) vals) = map (map Some) vals
+  /\ read_args (fst (interp_decode true named) ++ fst (va_read_seq true true (snd (interp_decode true named)) tail))
+               (image (fst (assign (named ++ tail))) vals) = map (map Some) vals.
+Proof.
+  intros W S. destruct (wf_args_app _ _ W) as [Wn Wt].
+  destruct (incoming_assign_eq named Wn) as [E _].
+  rewrite E, (gen_va_tail_eq named tail W), (interp_va_tail_eq named tail W), (interp_decode_eq named Wn).
+  simpl. rewrite <- assign_app_fst. split; apply sysv_roundtrip; assumption.
+Qed.
